@@ -146,7 +146,10 @@ CASES = [
     ("s-c19-divmod-255", "C19", "silent", "xdis/codetype/code30.py", "            while offset_diff >= 256:\n                co_lnotab += bytearray([255, 0])\n                offset_diff -= 255\n",
      "            if offset_diff >= 256:\n                extra, offset_diff = divmod(offset_diff, 255)\n                co_lnotab += bytearray([255, 0]) * extra\n", ""),
     ("m-c19-no-reset", "C19", "fire", "xdis/codetype/code15.py", "                co_lnotab += chr(255)\n                offset_diff = 0\n                line_diff -= 255", "                co_lnotab += chr(255)\n                line_diff -= 255", "conservation:address"),
-    ("m-c19-chunk-254", "C19", "fire", "xdis/codetype/code30.py", "                co_lnotab += bytearray([offset_diff, 255])\n                offset_diff = 0\n                line_diff -= 255", "                co_lnotab += bytearray([offset_diff, 255])\n                offset_diff = 0\n                line_diff -= 256", "conservation:line"),
+    ("m-c19-chunk-126", "C19", "fire", "xdis/codetype/code30.py", "                co_lnotab += bytearray([offset_diff, 127])\n                offset_diff = 0\n                line_diff -= 127", "                co_lnotab += bytearray([offset_diff, 127])\n                offset_diff = 0\n                line_diff -= 128", "conservation:line"),
+    ("m-c19-chunk-255-signed", "C19", "fire", "xdis/codetype/code30.py", "            while line_diff >= 128:", "            while line_diff >= 256:", "conservation:line:final pair"),
+    ("m-c19-neg-chunk-unbalanced", "C19", "fire", "xdis/codetype/code30.py", "                co_lnotab += bytearray([offset_diff, 0x80])\n                offset_diff = 0\n                line_diff += 128", "                co_lnotab += bytearray([offset_diff, 0x80])\n                offset_diff = 0\n                line_diff += 127", "conservation:line"),
+    ("m-c19-drop-negative", "C19", "fire", "xdis/codetype/code30.py", "            co_lnotab += bytearray([offset_diff, line_diff & 0xFF])", "            if line_diff >= 0:\n                co_lnotab += bytearray([offset_diff, line_diff & 0xFF])", "conservation"),
     ("s-c19-chunk-200", "C19", "silent", "xdis/codetype/code15.py", "            while offset_diff >= 256:\n                co_lnotab += chr(255)\n                co_lnotab += chr(0)\n                offset_diff -= 255", "            while offset_diff >= 256:\n                co_lnotab += chr(200)\n                co_lnotab += chr(0)\n                offset_diff -= 200", ""),
     ("m-c12-ternary-offbyone", "C12", "fire", "xdis/opcodes/format/extended.py", "            stack_inst3 = instructions[k]", "            stack_inst3 = instructions[k + 1]", "index:instructions[k + 1]"),
     ("m-c12-lookup-unchecked", "C12", "fire", "xdis/opcodes/format/extended.py", "            i = get_instruction_index_from_offset(arg1_start_offset, instructions, 1)\n            if i is None:\n                return \"\", None\n        j = skip_cache(instructions, i + 1)",
